@@ -804,6 +804,14 @@ Definition safe_step (s : st) (o : op) : bool :=
   | _ => true
   end.
 
+(* the caller's buffer holds what the call will read from it *)
+Definition buf_ok (h : hdr) (o : op) : bool :=
+  match o with
+  | WriteAll data => total_bytes h <=? lenZ data
+  | WriteBlock b e data => esz (h_ty h) * e - esz (h_ty h) * (b - 1) <=? lenZ data
+  | _ => true
+  end.
+
 (* no new chunk of more than 4096 data bytes whose data area starts on a block boundary is handed to the two writers that
    zero-fill (conservative: ADF_Write_Block_Data zero-fills only when the block ends before the new chunk) *)
 Definition zero_ok (s : st) (o : op) (al : list ptr) : bool :=
@@ -820,10 +828,110 @@ Definition zero_ok (s : st) (o : op) (al : list ptr) : bool :=
 Fixpoint good_hist (s : st) (hist : list (op * list ptr)) : bool :=
   match hist with
   | [] => true
-  | (o, al) :: r => safe_step s o && alloc_ok s o al && zero_ok s o al && good_hist (snd (step s o al)) r
+  | (o, al) :: r => safe_step s o && alloc_ok s o al && zero_ok s o al && buf_ok (s_h s) o && good_hist (snd (step s o al)) r
   end.
 
 End Fmt.
 
 (* the attributes of a file written by this library on this machine: new version, little endian *)
 Definition fa_native : fattr := {| fa_old := false; fa_fmt := 76; fa_os := 76 |}.
+
+(* ------------------------------------------------------------------ the specification: a plain array of bytes *)
+(* What the node's data are, as a function of the operations alone (no chunks, no pointers, no allocator): [i_b x] is the
+   x-th byte of the node's data if it was written since the node last lost its data and lies inside the dimensions it
+   has had ever since, [None] otherwise.  [i_n] / [i_cap] only say whether the node owns storage and how many bytes: they
+   decide which bytes a strided write into a node that has outgrown its storage initialises to zero (the code's "initialize
+   the new disk_space with zero's, then we'll write the partial data").  The block writer's zero fill of a chunk it adds
+   without writing into it is NOT claimed here. *)
+Record ideal := mkI { i_ty : dtype; i_dims : list Z; i_n : Z; i_cap : Z; i_b : Z -> option Z }.
+Definition i0 : ideal := mkI MT [] 0 0 (fun _ => None).
+Definition i_total (I : ideal) : Z := esz (i_ty I) * prodZ (i_dims I).
+Definition i_hdr (I : ideal) : hdr := mkHdr (i_ty I) (i_dims I) (i_n I) blank_ptr.
+
+Definition over (f : Z -> option Z) (a : Z) (l : bytes) : Z -> option Z :=
+  fun x => if (a <=? x) && (x <? a + lenZ l) then Some (nth (Z.to_nat (x - a)) l 0) else f x.
+Definition restrict (f : Z -> option Z) (t : Z) : Z -> option Z := fun x => if x <? t then f x else None.
+Fixpoint over_elems (f : Z -> option Z) (ps : list Z) (fb : Z) (data : bytes) : Z -> option Z :=
+  match ps with
+  | [] => f
+  | p :: r => over_elems (over f (p * fb) (firstn (Z.to_nat fb) data)) r fb (skipn (Z.to_nat fb) data)
+  end.
+
+(* storage after a write that needs [t] bytes: (number of chunks, capacity) *)
+Definition i_grow (I : ideal) (t : Z) : Z * Z :=
+  if i_n I =? 0 then (1, t) else if t >? i_cap I then (i_n I + 1, t) else (i_n I, i_cap I).
+
+Definition block_valid (I : ideal) (b_start b_end : Z) : bool :=
+  let fb := esz (i_ty I) in
+  negb (i_total I =? 0) && (0 <=? fb * (b_start - 1)) && (fb * (b_start - 1) <=? fb * b_end) && (fb * b_end <=? i_total I).
+
+Definition istep (I : ideal) (o : op) : ideal :=
+  match o with
+  | PutDims ty dims =>
+      if (12 <? lenZ dims) || existsb (fun v => v <=? 0) dims then I
+      else if dtype_eqb (i_ty I) ty && (lenZ dims =? lenZ (i_dims I))
+           then mkI (i_ty I) dims (i_n I) (i_cap I) (restrict (i_b I) (esz (i_ty I) * prodZ dims))
+           else mkI ty dims 0 0 (fun _ => None)
+  | WriteAll data =>
+      let t := i_total I in
+      if t =? 0 then I
+      else let nc := i_grow I t in
+           mkI (i_ty I) (i_dims I) (fst nc) (if (i_n I =? 1) && (t <=? i_cap I) then t else snd nc)
+               (over (i_b I) 0 (firstn (Z.to_nat t) data))
+  | WriteBlock b e data =>
+      if negb (block_valid I b e) then I
+      else let fb := esz (i_ty I) in
+           let nc := i_grow I (i_total I) in
+           mkI (i_ty I) (i_dims I) (fst nc) (snd nc)
+               (over (i_b I) (fb * (b - 1)) (firstn (Z.to_nat (fb * e - fb * (b - 1))) data))
+  | WriteStrided sel data =>
+      let fb := esz (i_ty I) in
+      if (fb =? 0) || (lenZ (i_dims I) =? 0) then I
+      else match sel_positions (i_hdr I) sel with
+           | Ok ps =>
+               if negb (lenZ data =? lenZ ps * fb) then I else
+               let t := i_total I in
+               let nc := i_grow I t in
+               let z := if i_n I =? 0 then over (i_b I) 0 (zeros t)
+                        else if t >? i_cap I then over (i_b I) (i_cap I) (zeros (t - i_cap I)) else i_b I in
+               mkI (i_ty I) (i_dims I) (fst nc) (snd nc) (over_elems z ps fb data)
+           | _ => I
+           end
+  | _ => I
+  end.
+
+Fixpoint irun (I : ideal) (ops : list op) : ideal :=
+  match ops with [] => I | o :: r => irun (istep I o) r end.
+
+Fixpoint zr (a : Z) (n : nat) : list Z := match n with O => [] | S k => a :: zr (a + 1) k end.
+Definition zrange (a : Z) (n : Z) : list Z := zr a (Z.to_nat n).      (* a, a+1, .., a+n-1 *)
+
+(* the node owns storage for all its bytes (it was written after it last grew) *)
+Definition i_ready (I : ideal) : bool :=
+  (1 <=? i_n I) && (i_total I <=? i_cap I) && negb (esz (i_ty I) =? 0) && negb (lenZ (i_dims I) =? 0).
+
+(* what a read must return: [None] in the list = this byte was never written (no claim), [None] as a whole = the call is
+   not a read of a node with data / not a valid range (no claim) *)
+Definition iread (I : ideal) (o : op) : option (list (option Z)) :=
+  if negb (i_ready I) then None else
+  let fb := esz (i_ty I) in
+  match o with
+  | ReadAll => Some (map (i_b I) (zrange 0 (i_total I)))
+  | ReadBlock b e =>
+      if block_valid I b e && (fb * (b - 1) <? fb * e)
+      then Some (map (i_b I) (zrange (fb * (b - 1)) (fb * e - fb * (b - 1)))) else None
+  | ReadStrided sel =>
+      match sel_positions (i_hdr I) sel with
+      | Ok ps => Some (flat_map (fun p => map (i_b I) (zrange (p * fb) fb)) ps)
+      | _ => None
+      end
+  | _ => None
+  end.
+
+(* the answer agrees with the specification wherever the specification says something *)
+Fixpoint agrees (spec got : list (option Z)) : bool :=
+  match spec, got with
+  | [], [] => true
+  | s :: sr, g :: gr => (match s with None => true | Some v => match g with Some w => v =? w | None => false end end) && agrees sr gr
+  | _, _ => false
+  end.
